@@ -33,7 +33,7 @@ contract(
         # the user's document is not modified
         "b == old(b)",
     ],
-    modifies=["a"], raises=[],
+    modifies=["a", "alloc"], writes_fresh=["List.len", "List.items"], raises=[],
     loops={0: dict(index="kidx", invariant=[
         "b == old(b)",
         "all(k in a for k in old(a)) and all(k in old(a) or k in b for k in a)",
